@@ -253,10 +253,11 @@ def run_check(prop, tier, obligations, *, level_text="", assumptions=(), wall_bu
     with cf.ProcessPoolExecutor(max_workers=nproc, mp_context=ctxmp) as ex:
         todo = [(ob.name, j, []) for ob in obligations for j in range(len(ob.jobs))]
         # interleave heavy/light jobs deterministically by seed
-        if seed:
+        if seed or tier == "thorough":
             import random
 
-            random.Random(seed).shuffle(todo)
+            # thorough tier: always interleaved, so that a run that reaches its wall budget has sampled every obligation
+            random.Random(seed or 20261003).shuffle(todo)
         todo.reverse()
         ntask = 0
 
